@@ -5,6 +5,7 @@ import copy
 import hashlib
 import json
 import random
+import sys
 
 import numpy as np
 
@@ -380,3 +381,72 @@ def shrink_candidates(case):
 
 def cleanup():
     simparallel.uninstall()
+
+
+def extra_phase(ctx):
+    """Real joblib control (not simulated): one loky and one threading run of a fixed plan, compared with the
+    serial result.  Validates that the seam models the component it replaces; a disagreement here is a real
+    execution violating the property and is reported with the plan as (unshrunk) replay."""
+    import sys
+    import time
+    import joblib
+    import persim  # noqa: F401
+    from sim import simparallel as sp
+    t0 = time.time()
+    mod = sys.modules["persim.images"]
+    real = getattr(mod, "_verif_real_Parallel", None) or mod.Parallel
+    if real is sp.SimParallel:
+        return {"real_joblib_control": "skipped: seam still installed"}, [], []
+    cfg = {"birth_range": [0.0, 2.0], "pers_range": [0.0, 2.0], "pixel_size": 0.25, "kernel": "corr", "weight": "persistence",
+           "var": 0.3, "rho": 0.5}
+    rng = np.random.RandomState(ctx["seed"] % (2 ** 31))
+    dgms = []
+    for _ in range(6):
+        b = rng.rand(rng.randint(1, 40)) * 2
+        dgms.append(np.column_stack([b, b + rng.rand(len(b))]))
+    viols, info = [], {}
+    try:
+        im = ic.make_imager(cfg)
+        serial = im.transform(dgms, skew=True)
+        for backend in ("loky", "threading"):
+            if ctx["tier"] == "quick" and backend == "loky":
+                info[backend] = "thorough tier only (3 s worker start-up)"
+                continue
+            with joblib.parallel_config(backend=backend):
+                out = im.transform(dgms, skew=True, n_jobs=2)
+            ok = len(out) == len(serial) and all(_close(o, s_, float(np.abs(s_).sum()) + 1.0) for o, s_ in zip(out, serial))
+            info[backend] = "agrees with serial" if ok else "DISAGREES with serial"
+            if not ok:
+                viols.append({"format": 1, "property": ID, "no_shrink": True, "origin": {"verif_seed": ctx["seed"], "run_index": -1, "tier": ctx["tier"]},
+                              "inputs": {"cfg": cfg, "dgms": [d.tolist() for d in dgms]}, "ops": [], "config": {"real_joblib_backend": backend},
+                              "violation": {"clause": "parallel==serial", "signature": ["transform(real joblib %s)" % backend, "call-style-independent", "value"],
+                                            "detail": "real joblib backend %s, n_jobs=2: images differ from the serial result" % backend, "op_index": None}})
+    except Exception as e:
+        info["error"] = "%s: %s" % (type(e).__name__, str(e)[:200])
+        viols.append({"format": 1, "property": ID, "no_shrink": True, "origin": {"verif_seed": ctx["seed"], "run_index": -1, "tier": ctx["tier"]},
+                      "inputs": {"cfg": cfg}, "ops": [], "config": {},
+                      "violation": {"clause": "no-exception", "signature": ["transform(real joblib)", "no-exception", type(e).__name__],
+                                    "detail": "real joblib control raised %s: %s" % (type(e).__name__, str(e)[:300]), "op_index": None}})
+    info["wall_s"] = round(time.time() - t0, 1)
+    return {"real_joblib_control": info}, viols, []
+
+
+def replay_case(case):
+    """Replay files of the real-joblib control are re-executed with real joblib; all others normally."""
+    from sim import runner
+    from sim.sched import Sched
+    backend = (case.get("config") or {}).get("real_joblib_backend")
+    if not backend:
+        return runner.execute(sys.modules[__name__], case, log_on=True)
+    import joblib
+    sched = Sched(0, tape=[])
+    im = ic.make_imager(case["inputs"]["cfg"])
+    dgms = [np.array(d, dtype=float).reshape(-1, 2) for d in case["inputs"]["dgms"]]
+    serial = im.transform(dgms, skew=True)
+    with joblib.parallel_config(backend=backend):
+        out = im.transform(dgms, skew=True, n_jobs=2)
+    ok = len(out) == len(serial) and all(_close(o, s_, float(np.abs(s_).sum()) + 1.0) for o, s_ in zip(out, serial))
+    if ok:
+        return {"status": "ok", "stats": {}, "sched": sched}
+    v = Violation("parallel==serial", "transform(real joblib %s)" % backend, "value", "images differ from the serial result")
+    return {"status": "violation", "violation": v.to_json(), "sched": sched}
